@@ -26,6 +26,7 @@ import (
 	"crypto/x509"
 	"encoding/asn1"
 	"errors"
+	"fmt"
 	"path"
 	"strings"
 	"time"
@@ -96,7 +97,21 @@ func (jd *JarDigest) insertSignature(cert *x509.Certificate, alias string, sf, s
 	// Patch out old files
 	patch := binpatch.New()
 	patch.Add(0, 0, zipcon.Bytes())
+	// The new directory places every kept member right after the previous
+	// one while the patch leaves the bytes where they are: that is only
+	// right if the members are contiguous from the start of the file up to
+	// the directory. Refuse anything else (a launcher script in front, gaps)
+	// instead of writing a directory that points into the wrong place.
+	var pos int64
 	for _, f := range jd.inz.File {
+		size, err := f.GetTotalSize()
+		if err != nil {
+			return nil, err
+		}
+		if int64(f.Offset) != pos {
+			return nil, fmt.Errorf("zip member %q is at offset %d but %d was expected: archives with leading or embedded non-archive data cannot be rewritten", f.Name, f.Offset, pos)
+		}
+		pos += size
 		if keepFile(f.Name) {
 			// Add existing file to the new zip directory. Its offset will be changed.
 			if _, err := outz.AddFile(f); err != nil {
@@ -104,15 +119,14 @@ func (jd *JarDigest) insertSignature(cert *x509.Certificate, alias string, sf, s
 			}
 		} else {
 			// remove this region from the old zip
-			size, err := f.GetTotalSize()
-			if err != nil {
-				return nil, err
-			}
 			if size > 0xffffffff {
 				return nil, errors.New("signature file too big")
 			}
 			patch.Add(int64(f.Offset), size, nil)
 		}
+	}
+	if pos != jd.inz.DirLoc {
+		return nil, fmt.Errorf("zip directory is at offset %d but %d was expected: archives with embedded non-archive data cannot be rewritten", jd.inz.DirLoc, pos)
 	}
 	zipdir := new(bytes.Buffer)
 	if err := outz.WriteDirectory(zipdir, zipdir, false); err != nil {
